@@ -29,13 +29,38 @@ ev C10 5 internal/tan/zz_demo_test.go ./internal/tan -- C10
 ev C10 6 internal/logdb/zz_demo_test.go ./internal/logdb -- C10 C09 C04
 ev C02 5 internal/tan/zz_demo_test.go ./internal/tan -- C09 C10 C02
 }
-lane4() {
-ev C02 6 internal/raft/zz_demo_test.go ./internal/raft -- C02 C19
+laneA() {
+ev C03 5 internal/tan/zz_demo_test.go ./internal/tan -- C10 C04
+ev C03 6 internal/raft/zz_demo_test.go ./internal/raft -- C03 C07
+ev C04 6 internal/tan/zz_demo_test.go ./internal/tan -- C10
+ev C05 5 internal/rsm/zz_demo_test.go ./internal/rsm -- C05
+ev C02 5 internal/tan/zz_demo_test.go ./internal/tan -- C09
+ev C02 6 internal/raft/zz_demo_test.go ./internal/raft -- C02
+ev C13 6 internal/logdb/zz_demo_test.go ./internal/logdb -- C13 C09
 }
-lane5() {
+laneB() {
+ev C08 5 internal/rsm/zz_demo_test.go ./internal/rsm -- C08 C07
+ev C08 6 internal/tan/zz_demo_test.go ./internal/tan -- C10 C09 C08
 ev C18 5 internal/rsm/zz_demo_test.go ./internal/rsm -- C18 C07 C08 C02
 ev C18 6 internal/raft/zz_demo_test.go ./internal/raft -- C18 C03 C06
+ev C14 5 internal/rsm/zz_demo_test.go ./internal/rsm -- C14
+ev C14 6 internal/rsm/zz_demo_test.go ./internal/rsm -- C14
+ev C16 6 internal/rsm/zz_demo_test.go ./internal/rsm -- C16
+}
+laneC() {
+ev C04 5 zz_demo_test.go . -- C04 C01
+ev C07 6 tools/zz_demo_test.go ./tools -- C20 C07
 ev C11 3 zz_c11_demo3_test.go . -- C11
 ev C17 4 internal/raft/zz_demo_c17_4_test.go ./internal/raft -- C17
+ev C13 5 internal/transport/zz_demo_test.go ./internal/transport -- C13 C15
+ev C16 5 internal/transport/zz_demo_test.go ./internal/transport -- C16 C15
+}
+laneD() {
+ev C20 5 tools/zz_demo_test.go ./tools -- C20
+ev C20 6 tools/zz_demo_test.go ./tools ./internal/rsm -- C20 C14
+}
+laneE() {
+ev C12 5 zz_demo_test.go . -- C12
+ev C12 6 zz_demo_test.go . -- C12
 }
 "$@"
